@@ -319,10 +319,15 @@ fn run(prop: &str, tier_s: &str) -> i32 {
     let mut explained = 0u64;
     for u in &merged {
         total_mismatch += u.mismatch_count;
+        // units that keep only a few records per classified finding report the full count in a counter
+        let counted: u64 = u.counters.iter().filter(|(k, _)| k.strip_prefix("explained:").map_or(false, |key| known_set.contains(key))).map(|(_, n)| *n).sum();
+        explained += counted;
         for m in &u.mismatches {
             let keys: Vec<&str> = m["explained_by"].as_array().map(|a| a.iter().filter_map(|x| x.as_str()).collect()).unwrap_or_default();
             if !keys.is_empty() && keys.iter().all(|k| known_set.contains(k)) {
-                explained += 1;
+                if counted == 0 {
+                    explained += 1;
+                }
                 for k in keys {
                     used_known.insert(k.to_string());
                 }
@@ -456,13 +461,12 @@ fn replay(path: &str) -> i32 {
     let res = match v["engine"].as_str().unwrap_or("") {
         "pratt" => eng_pratt::replay(&v),
         "text" => eng_text::replay(&v),
-        "pulls" => Err("re-run ./check C20 (the pull-budgets unit takes under a second)".into()),
         "text-totality" => Err("re-run ./check C20 (the text-totality unit is a few seconds)".into()),
         "nested" => eng_nested::replay(&v),
         "drops" => eng_drops::replay(&v),
         "hist" | "threads" => eng_hist::replay(&v),
-        "graphemes" | "iterinput" | "cursor" => eng_inputs::replay(&v),
-        "leftrec" | "rec" | "rec-life" | "rec-depth" | "rec-define" => eng_rec::replay(&v),
+        "graphemes" | "iterinput" | "cursor" | "seqs" | "pulls" => eng_inputs::replay(&v),
+        "leftrec" | "sharedmemo" | "rec" | "rec-life" | "rec-depth" | "rec-define" => eng_rec::replay(&v),
         _ => cvh::replay::replay(&v),
     };
     match res {
